@@ -206,9 +206,12 @@ class World:
                         d = next(k for k, a in enumerate(ch) if a is m) + 1
                         require(n.get_depth(relative_to=m) == d, "get_depth-relative", f"step {self.step_no}")
                 for cname in ("LInner", "LReq"):
-                    exp_a = next((a for a in ch if type(a).__name__ == cname), None)
+                    exp_a = next((a for a in ch if L.is_subclass(type(a).__name__, cname)), None)
                     require(n.get_first_ancestor_of_type(L.cls(cname)) is exp_a, "get_first_ancestor_of_type",
                             f"step {self.step_no}")
+                    exp_x = next((a for a in ch if type(a).__name__ == cname), None)
+                    require(n.get_first_ancestor_of_type(L.cls(cname), exact_type=True) is exp_x,
+                            "get_first_ancestor_of_type-exact", f"step {self.step_no}")
 
     def chain(self, n: Any, pm: dict) -> list[Any]:
         out = []
@@ -237,6 +240,8 @@ class World:
             v = getattr(n, fn)
             if kind == "one":
                 kw[fn] = None if v is None else self.rebuild(v, copy_of)
+            elif kind == "otuple":
+                kw[fn] = None if v is None else tuple(self.rebuild(x, copy_of) for x in v)
             elif kind == "tuple":
                 kw[fn] = tuple(self.rebuild(x, copy_of) for x in v)
             else:
